@@ -66,25 +66,33 @@ def _cli_check(cmd: list[str], smt: str, timeout_s: int):
 
 def solve_one(args):
     oid, smt, timeout_ms, fallbacks = args
-    # the solver runs as a separate process with a hard time limit: the in-process API does not
-    # always honour its timeout (recursive function unfolding)
-    res, reason, ms = _cli_check(['z3-new', '-smt2', f'-T:{max(1, timeout_ms // 1000)}'], smt, max(5, timeout_ms // 1000 + 5))
-    backend = f'z3-{z3.get_version_string()} (cli)'
-    if res == 'unknown' and fallbacks:
-        for name, cmd in fallbacks:
-            r2, why2, ms2 = _cli_check(cmd, smt, max(5, timeout_ms // 1000))
-            ms += ms2
-            if r2 in ('sat', 'unsat'):
-                res, reason, backend = r2, '', name
-                break
-            reason += f' | {name}: {why2[:80]}'
+    # Every solver runs as a separate process with a hard time limit (the in-process API does not always
+    # honour its timeout).  Staged: z3 5.1 briefly, then the other installed solvers, then z3 5.1 with the
+    # full budget -- most VCs take milliseconds, and the few hard ones are often easy for another solver.
+    total = max(1, timeout_ms // 1000)
+    first = min(5, total)
+    stages = [(f'z3-{z3.get_version_string()} (cli)', ['z3-new', '-smt2', f'-T:{first}'], first + 5)]
+    for name, cmd in fallbacks:
+        stages.append((name, cmd, 25))
+    if total > first:
+        stages.append((f'z3-{z3.get_version_string()} (cli)', ['z3-new', '-smt2', f'-T:{total}'], total + 5))
+    ms = 0.0
+    reasons = []
+    res, backend = 'unknown', stages[0][0]
+    for name, cmd, hard in stages:
+        r, why, t = _cli_check(cmd, smt, hard)
+        ms += t
+        if r in ('sat', 'unsat'):
+            res, backend = r, name
+            break
+        reasons.append(f'{name}: {why[:60]}')
     status = {'unsat': 'discharged', 'sat': 'refuted'}.get(res, 'undecided')
-    return Verdict(oid, status, backend, ms, reason)
+    return Verdict(oid, status, backend, ms, ' | '.join(reasons) if status == 'undecided' else '')
 
 
 FALLBACKS = [
-    ('z3-4.8.12', ['/usr/bin/z3', '-smt2']),
-    ('cvc5-1.0.3', ['/usr/bin/cvc5', '--lang', 'smt2', '--strings-exp', '--tlimit=20000']),
+    ('z3-4.8.12', ['/usr/bin/z3', '-smt2', '-T:15']),
+    ('cvc5-1.0.3', ['/usr/bin/cvc5', '--lang', 'smt2', '--strings-exp', '--tlimit=15000']),
 ]
 
 
